@@ -222,7 +222,7 @@ func genC20(d *Draw) Case {
 	}
 	if d.N(4) == 3 {
 		// (a) engine level: a forking process with the engine's real default generator
-		opts := ProgOpts{Kinds: []string{"seq", "and", "xor", "loop", "sub"}, MaxDepth: 1 + d.N(2), MaxTasks: 3 + d.N(5)}
+		opts := ProgOpts{Kinds: []string{"seq", "and", "xor", "loop", "sub"}, MaxDepth: 1 + d.N(2), MaxTasks: 3 + d.N(5), Throws: true}
 		prog := GenProgram(d, opts)
 		e := &ProcCase{Prog: prog, Buf: d.N(17), Hold: d.N(3), RealIDs: true}
 		e.Picks = drawPicks(d, 32)
